@@ -3,6 +3,7 @@ from .common import *
 from .codewrite import *
 from . import patches
 
+PER_TARGET = True      # every rule below looks at one target configuration at a time (check.py may fork one worker per target)
 DECIDED = ("between caller and fake only the emitted entry and trampoline run; from their decoded instruction lists (all install roots, all "
            "path variants, all entry classes): every instruction is an unconditional branch, a NOP or a move of an immediate/literal into "
            "the scratch register (R13.1: no stack effect, no call, no flags consumer, no memory store); the registers written are within the "
